@@ -313,6 +313,10 @@ func (c *Config) setField(name string, idx int, v value, options []Option) Error
 	opts := makeOptions(options)
 	p := parsePathIdx(name, idx, opts)
 
+	if sub, ok := v.(cfgSub); ok && attachesCycle(c, p, opts, sub.c) {
+		return raiseCyclicErr(name)
+	}
+
 	err := p.SetValue(c, opts, v)
 	if err != nil {
 		return err
@@ -322,4 +326,47 @@ func (c *Config) setField(name string, idx int, v value, options []Option) Error
 		v.setMeta(opts.meta)
 	}
 	return nil
+}
+
+// attachesCycle reports whether storing child at path p below c would make a
+// Config its own descendant: a child can be attached at several places, so
+// neither c nor any object on the way to the setting may be part of child.
+func attachesCycle(c *Config, p cfgPath, opts *options, child *Config) bool {
+	on := map[*Config]bool{c: true}
+	for k := 1; k < len(p.fields); k++ {
+		v, err := cfgPath{fields: p.fields[:k], sep: p.sep}.GetValue(c, opts)
+		if err != nil || v == nil {
+			break
+		}
+		if sub, ok := v.(cfgSub); ok {
+			on[sub.c] = true
+		}
+	}
+
+	seen := map[*Config]bool{}
+	var reaches func(n *Config) bool
+	reaches = func(n *Config) bool {
+		if n == nil || seen[n] {
+			return false
+		}
+		if on[n] {
+			return true
+		}
+		seen[n] = true
+		if n.fields == nil {
+			return false
+		}
+		for _, v := range n.fields.dict() {
+			if sub, ok := v.(cfgSub); ok && reaches(sub.c) {
+				return true
+			}
+		}
+		for _, v := range n.fields.array() {
+			if sub, ok := v.(cfgSub); ok && reaches(sub.c) {
+				return true
+			}
+		}
+		return false
+	}
+	return reaches(child)
 }
